@@ -519,9 +519,16 @@ Theorem c08_frac_transfer_anonymous : forall (w : cand) (fpv fpv' t : Q) (bs bs'
   res_equiv dist_eq (frac_transfer cand ceqb w fpv bs t) (frac_transfer cand ceqb w fpv' bs' t).
 Proof. exact (frac_transfer_anonymous cand ceqb ceqb_spec). Qed.
 
-(* the quota: the same electorate gives the same threshold (or the same error) *)
+(* the quota: the same electorate gives the same threshold (or the same error).  Since STV's
+   constructor refuses non-integer weights up front for the random transfer, and integrality of
+   every weight is not a function of the electorate (two half-weight copies of a ballot versus one
+   copy of weight 1), with the random transfer the two profiles must agree on it; for the
+   deterministic transfers the premise is vacuous *)
 Theorem c08_stv_init_anonymous : forall (cfg : stv_cfg) (p p' : profile),
   stv_domain p -> stv_domain p' -> profile_equiv p p' ->
+  (s_transfer cfg = TRandom ->
+   forallb (fun b => is_integral (wt b)) (ballots p) =
+   forallb (fun b => is_integral (wt b)) (ballots p')) ->
   stv_init cand cfg p = stv_init cand cfg p'.
 Proof. exact (stv_init_anonymous cand ceqb ceqb_spec). Qed.
 
@@ -596,6 +603,37 @@ Proof.
     + exists [1;2;3]%positive, 3%Z. repeat split; [discriminate|apply Permutation_refl].
     + exists [1;2;3]%positive, 1%Z. repeat split; [discriminate|apply Permutation_refl].
 Qed.
+
+(* the premise added to c08_stv_init_anonymous for the random transfer cannot be dropped: one ballot
+   of weight 1 versus the same ballot split into two halves — the same electorate, both in the
+   domain — the constructor accepts the first (threshold 1) and refuses the second (TypeError) *)
+Definition ex_half (w : Q) : ballot positive := mkBallot [[1%positive]] w [] None None.
+Theorem c08_stv_init_anonymous_random_refuted :
+  exists (cfg : stv_cfg) (p p' : profile positive),
+    s_transfer cfg = TRandom /\ stv_domain positive p /\ stv_domain positive p' /\
+    profile_equiv positive Pos.eqb p p' /\
+    stv_init positive cfg p = inl 1%Q /\ stv_init positive cfg p' = inr EType.
+Proof.
+  exists (mkStv 1 QDroop true TRandom None),
+         (mkProfile [ex_half 1] [1%positive]), (mkProfile [ex_half (1#2); ex_half (1#2)] [1%positive]).
+  assert (Hok : forall w, (0 <= w)%Q -> stv_ballot_ok positive [1%positive] (ex_half w)).
+  { intros w Hw. unfold stv_ballot_ok. cbn [rk wt sc ex_half]. split; [discriminate|].
+    split; [constructor; [reflexivity|constructor]|]. split; [constructor; [intros []|constructor]|].
+    split; [intros c Hc; exact Hc|]. split; [exact Hw|reflexivity]. }
+  split; [reflexivity|].
+  assert (Hnd : NoDup [1%positive]) by (constructor; [intros []|constructor]).
+  split; [split; [exact Hnd|constructor; [apply Hok; discriminate|constructor]]|].
+  split; [split; [exact Hnd|constructor; [apply Hok; discriminate|
+                             constructor; [apply Hok; discriminate|constructor]]]|].
+  split.
+  - split; [|apply Permutation_refl]. cbn [ballots].
+    apply (c08_dist_eq_split positive Pos.eqb Pos.eqb_spec [] (ex_half 1) []
+             [ex_half (1#2); ex_half (1#2)]).
+    + repeat constructor.
+    + vm_compute. reflexivity.
+  - split; vm_compute; reflexivity.
+Qed.
+Print Assumptions c08_stv_init_anonymous_random_refuted.
 
 Example c08_ex_stv_anonymous_by_theorem :
   mres_equiv positive (Forall2 (state_equiv positive))
